@@ -102,6 +102,10 @@ for rel in ['runner/props.py', 'runner/manifest_data.py']:
         blk = '\n'.join(new)
         if rel.endswith('manifest_data.py'):
             blk = re.sub(r"(?m)^    '(C\d\d)': \{\n((?:        .*\n)+)    \},?$", lambda m: "CLAIMS['%s'] = {\n%s}" % (m.group(1), re.sub(r'(?m)^    ', '', m.group(2))), blk + '\n')
+        if rel.endswith('props.py') and re.match(r"\s*'C\d\d': ", blk):
+            ls = [l[4:] if l.startswith('    ') else l for l in blk.rstrip('\n').split('\n')]
+            blk = re.sub(r"^'(C\d\d)': ", lambda m: "PROPS['%s'] = " % m.group(1), '\n'.join(ls)).rstrip()
+            blk = blk[:-1] if blk.endswith(',') else blk
         if blk.strip() and blk.strip() not in cur:
             cur = cur.rstrip('\n') + '\n\n' + blk.strip('\n') + '\n'
         if op != 'insert':
